@@ -202,6 +202,41 @@ fn run_f64(k: Kind, xs: &[f64], out: &mut TrialOut) {
     }
 }
 
+/// "+1 / -1 on a linear window", far from where the stream began: one to three values near zero, then
+/// an exactly linear stretch at a level of 2^30 or 2^40 in steps of about 2^-10 (every value and every
+/// difference within a window exactly representable).  Correlation does not depend on the level, and
+/// on such a window the statement's value is exactly +-1; a reference level that is not the window's
+/// own (the first value ever seen, zero) leaves N sxx - sx^2 to cancel.  Tolerance 1e-9.
+fn run_far_linear(n: usize, rng: &mut Rng, out: &mut TrialOut) {
+    let k = Kind::Cti(n);
+    let start = *rng.pick(&[0.0, 1.0, -250.0]);
+    let pre = rng.usize(1, 3);
+    let level = *rng.pick(&[1073741824.0, -1073741824.0, 1099511627776.0]);
+    let step = *rng.pick(&[0.0009765625, -0.0009765625, 0.01171875]);
+    let mut xs: Vec<f64> = (0..pre).map(|i| start + i as f64).collect();
+    xs.extend((0..3 * n + 20).map(|i| level + step * i as f64));
+    out.key(mix(hash_str("far-linear"), gen::hash_f64s(&xs)));
+    let mut v = build_plain::<f64>(&Spec::leaf(k));
+    let want = if step > 0.0 { 1.0 } else { -1.0 };
+    for t in 0..xs.len() {
+        let Ok(got) = guarded(|| {
+            v.update(xs[t]);
+            v.last()
+        }) else {
+            out.count("trials_ended_by_panic_of_code_under_test(C15)", 1);
+            return;
+        };
+        if t + 1 < pre + n {
+            continue;
+        }
+        out.cell("CorrelationTrendIndicator/linear-window-far-from-the-first-value", 1);
+        if !matches!(got, Some(g) if (g - want).abs() <= 1e-9) {
+            fail(out, &k, "f64", "linear-window", t, format!("{:?}", got), format!("{:e}", want), &xs, "(exactly linear full window, tolerance 1e-9)");
+            return;
+        }
+    }
+}
+
 /// NET depends only on the order of the values: strictly increasing maps leave it bit-identical
 fn run_net_order(n: usize, xs: &[f64], out: &mut TrialOut) {
     let k = Kind::Net(n);
@@ -242,6 +277,10 @@ impl Monitor for C06 {
         let main = (3 * nl.len() * CLASSES.len()) as u64 * cfg.tier.pick(4, 12);
         if idx >= main {
             let n = *rng.pick(&nl);
+            if (idx - main) % 4 == 3 {
+                run_far_linear(n, &mut rng, out);
+                return;
+            }
             // moderate values so that x^3 and 2^(x/64) stay strictly increasing in f64
             let xs: Vec<f64> = gen::gen(*rng.pick(&[Class::Walk, Class::SmallInt, Class::Uniform, Class::Blocks]), n, 4 * n + 40, &mut rng)
                 .iter()
@@ -310,7 +349,7 @@ impl Monitor for C06 {
         v
     }
     fn rule(&self) -> String {
-        "trial = (CTI, NET or CoG; N in 3..64; input class incl. ties, monotone runs, jumps on the oldest segment, linear windows at a large offset, partially shuffled streams; scalar); after every update last() is compared with Pearson r of (window values, index) on the full window, Kendall tau-a over all pairs of the current window (ties 0), and (n+1)/2 - sum k x / sum x, evaluated from the recorded history in exact arithmetic (equality; 1e-12 for CTI's irrational root), the negation relation, and in f64 within a conditioning-aware envelope; NET additionally bit-identical under x -> x^3 and x -> 2^(x/64). distinct = distinct (view, N, scalar, input hash)".into()
+        "trial = (CTI, NET or CoG; N in 3..64; input class incl. ties, monotone runs, jumps on the oldest segment, linear windows at a large offset, partially shuffled streams; scalar); after every update last() is compared with Pearson r of (window values, index) on the full window, Kendall tau-a over all pairs of the current window (ties 0), and (n+1)/2 - sum k x / sum x, evaluated from the recorded history in exact arithmetic (equality; 1e-12 for CTI's irrational root), the negation relation, and in f64 within a conditioning-aware envelope; NET additionally bit-identical under x -> x^3 and x -> 2^(x/64); CTI additionally +-1 (1e-9) on exactly linear windows at a level of 2^30 / 2^40 in a stream that began near zero. distinct = distinct (view, N, scalar, input hash)".into()
     }
     fn assumptions(&self) -> Vec<String> {
         vec!["f64 steps of CTI whose exact centred sum of squares is below 1000 x the one-pass cancellation envelope are skipped here (C07/C16 own them) and counted".into()]
